@@ -1435,6 +1435,198 @@ Section Trans.
         exists W0. rewrite (qout_same k id _ _ Hw). exact Hq0.
   Qed.
 
+
+  (* while the reader of d is busy nothing arrives on d *)
+  Lemma qarr_busy : forall d did code, In (TR d, code) (threads st) -> qarr arr' d did = qarr arr d did.
+  Proof.
+    intros d did code Hin. unfold arr', qarr. pose proof Hs as H0. unfold step in H0.
+    destruct (negb (panicked st =? 0)); [discriminate|].
+    destruct l as [d' f e| | | | | |]; try reflexivity. cbn [arr_step].
+    destruct (lookup tid_eqb (TR d') (threads st)) eqn:Eidle; [discriminate|].
+    rewrite wire_of_cons. destruct (d' =? d) eqn:E; [|cbn; apply f_equal; apply app_nil_r].
+    apply Z.eqb_eq in E. subst d'. exfalso. apply (in_map fst) in Hin. apply (lookup_none_notin tid_eqb tid_eqb_ok) in Eidle. contradiction.
+  Qed.
+
+  Lemma committed_inv : forall j r, committed k id j = Some r ->
+    blocked k id j = true /\ ((exists rk g, j = IRcvChk r rk g) \/ (exists rk, j = IRcvEnq r rk)).
+  Proof.
+    intros j r H. destruct j; cbn [committed] in H; try discriminate.
+    - destruct (blocked k id (IRcvChk r0 rk g)) eqn:Eb; [|discriminate]. inversion H. subst. split; [first [exact Eb|reflexivity]|left; eexists; eexists; reflexivity].
+    - destruct (blocked k id (IRcvEnq r0 rk)) eqn:Eb; [|discriminate]. inversion H. subst. split; [first [exact Eb|reflexivity]|right; eexists; reflexivity].
+  Qed.
+
+  (* data of a blocked forward: it is a response frame of the reader of its own connection, aimed at K0 *)
+  Lemma fwd_data : forall th code j r, In (th, code) (threads st) -> In j code -> committed k id j = Some r ->
+    r_ft r = c_responseFrame /\ rcv_key r = K0 /\ th = TR (key_conn (r_own r)) /\ key_dir (r_own r) = 1 /\ is_wire (r_f r) = true /\
+    (forall rk g, j = IRcvChk r rk g -> rk = K0) /\ (forall rk, j = IRcvEnq r rk -> rk = K0).
+  Proof.
+    intros th code j r Hin Hj Hc. destruct (committed_inv _ _ Hc) as [Hb Hform].
+    pose proof (w_code _ HW _ _ _ Hin Hj) as Hw. pose proof (f_thr _ _ HF _ _ _ Hin Hj) as Hthr.
+    assert (G : rcv_ok (seen st) r -> (r_d r =? k) && (f_id (r_f r) =? id) && is_wire (r_f r) = true ->
+              r_ft r = c_responseFrame /\ rcv_key r = K0 /\ is_wire (r_f r) = true).
+    { intros (A&_&_) Hbb. rewrite !andb_true_iff in Hbb. destruct Hbb as [[E1 E2] E3]. apply Z.eqb_eq in E1. apply Z.eqb_eq in E2.
+      unfold is_wire in E3. destruct (kind_of (r_f r)) eqn:Ek; [|discriminate].
+      rewrite (kind_of_response (r_f r)) in A by congruence.
+      assert (Hft : r_ft r = c_responseFrame) by congruence.
+      split; [exact Hft|]. split; [unfold rcv_key; rewrite Hft, E1, E2; reflexivity|]. unfold is_wire. rewrite Ek. reflexivity. }
+    destruct Hform as [(rk&g&->)|(rk&->)].
+    - cbn in Hb. destruct g as [[it s]|]; [|discriminate]. cbn in Hw, Hthr. destruct Hthr as [Hrk Hth].
+      rewrite !andb_true_iff in Hb. destruct Hb as [[Hb _] _]. rewrite <- !andb_true_iff in Hb.
+      destruct (G Hw Hb) as (A&B&C). destruct (Hth A) as [D F]. repeat split; try assumption.
+      + intros rk0 g0 Heq. inversion Heq. subst. congruence.
+      + intros rk0 Heq. discriminate.
+    - cbn in Hb. cbn in Hw, Hthr. destruct Hthr as [Hrk Hth].
+      destruct (G Hw Hb) as (A&B&C). destruct (Hth A) as [D F]. repeat split; try assumption.
+      + intros rk0 g0 Heq. discriminate.
+      + intros rk0 Heq. inversion Heq. subst. congruence.
+  Qed.
+
+
+  Lemma lookup_of_in' : forall th code, In (th, code) (threads st') -> lookup tid_eqb th (threads st') = Some code.
+  Proof. intros th code Hin. apply (in_lookup tid_eqb tid_eqb_ok); [apply (inv_threads_nd _ (a_inv _ _ HA'))|exact Hin]. Qed.
+
+  (* --- a response frame is committed to be forwarded to (k, id) *)
+  Lemma trans_fwd : forall th code j r it0 q x q', In (th, code) (threads st) -> In j code -> committed k id j = Some r -> nb k id st = 1 ->
+    klookup K0 (items st) = Some it0 -> it_tomb it0 = false -> In (th, it_call it0) h ->
+    r_own r = (it_dest it0, 1, it_remap it0) -> qout k id st = Some q -> kind_of (r_f r) = Some x -> wire_step q x = Some q' ->
+    qarr arr (it_dest it0) (it_remap it0) = Some q' -> phase k id st' h' arr'.
+  Proof.
+    intros th code j r it0 q x q' Hin Hj Hcm Hnb Hl0 Hlive Hh Hown Hq Hk Hst Hqa.
+    destruct (committed_inv _ _ Hcm) as [Hbj Hform].
+    destruct (fwd_data _ _ _ _ Hin Hj Hcm) as (Hft&Hrk&Hth&Hdir&Hwire&HrkC&HrkE).
+    pose proof (k0_seen _ Hl0) as Hseen.
+    assert (Hnb1 : nb k id st <= 1) by lia.
+    pose proof (in_lookup tid_eqb tid_eqb_ok _ _ _ (inv_threads_nd _ HI) Hin) as Elkth.
+    assert (Hthd : th = TR (it_dest it0)) by (rewrite Hth, Hown; reflexivity).
+    assert (Hqa' : qarr arr' (it_dest it0) (it_remap it0) = Some q').
+    { rewrite (qarr_busy (it_dest it0) (it_remap it0) code); [exact Hqa|]. rewrite <- Hthd. exact Hin. }
+    (* steps that do not execute j *)
+    assert (Hstay : (forall th2 room i2 rest, l = LStep th2 room -> lookup tid_eqb th2 (threads st) = Some (i2 :: rest) ->
+                       blocked k id i2 = false /\ (th2 = th -> In j rest)) -> phase k id st' h' arr').
+    { intro Hq2.
+      assert (Hquiet : forall th2 room i2 rest, l = LStep th2 room -> lookup tid_eqb th2 (threads st) = Some (i2 :: rest) ->
+                (forall st1 pushed j0, exec cf st i2 room = (st1, pushed) -> In j0 pushed -> blocked k id j0 = false) /\
+                klookup K0 (items st') = Some it0).
+      { intros th2 room i2 rest Hl Elk. destruct (Hq2 _ _ _ _ Hl Elk) as [Hb2 Hrest].
+        destruct (eqb_dec tid_eqb tid_eqb_ok th2 th) as [Heq|Hne]; [|eapply other_quiet; eassumption].
+        subst th2. specialize (Hrest eq_refl). pose proof (lookup_in tid_eqb tid_eqb_ok _ _ _ Elk) as Hin2.
+        assert (Hnq : quiet j = false) by (destruct Hform as [(rk&g&->)|(rk&->)]; reflexivity).
+        assert (Hnop : opener i2 = false).
+        { destruct (opener i2) eqn:Eo; [|reflexivity]. destruct (shape_head _ _ (HS _ _ Hin2)) as (_&_&Hqq). specialize (Hqq Eo).
+          rewrite forallb_forall in Hqq. rewrite (Hqq _ Hrest) in Hnq. discriminate. }
+        split.
+        - intros st1 pushed j0 E Hj0. destruct (shape_head _ _ (HS _ _ Hin2)) as (Hg&_&_).
+          destruct (exec_shape _ _ _ _ _ _ E Hg) as [_ Hnil]. rewrite (Hnil Hnop) in Hj0. contradiction.
+        - destruct (step_items_keep _ _ _ _ _ _ HI Hs Hl0 Hlive) as [Hk0|(th3&room3&rest3&i3&Hl3&Elk3&Hi3)]; [exact Hk0|]. exfalso.
+          rewrite Hl in Hl3. inversion Hl3. subst th3 room3. rewrite Elk in Elk3. inversion Elk3. subst i3.
+          destruct Hi3 as [[s Hi3]|Hi3]; subst i2; discriminate. }
+      destruct (quiet_other Hseen) as [Hnb' Hw].
+      { intros th2 room i2 rest Hl Elk. split; [apply (Hq2 _ _ _ _ Hl Elk)|apply (Hquiet _ _ _ _ Hl Elk)]. }
+      assert (Hk0 : klookup K0 (items st') = Some it0).
+      { destruct (lstep_or_not l) as [(th2&room&Hl)|Hn].
+        - destruct (lstep_inv th2 room Hl) as (i2&rest&st1&pushed&Elk&_). apply (Hquiet _ _ _ _ Hl Elk).
+        - destruct (step_items_keep _ _ _ _ _ _ HI Hs Hl0 Hlive) as [Hk0|(th3&room3&rest3&i3&Hl3&_)]; [exact Hk0|]. exfalso. eapply Hn. exact Hl3. }
+      destruct (step_code_keep _ _ _ _ _ _ _ HI Hs Hin Hj) as [(code'&Hin'&Hj')|(room&rest&Hl&Hc)].
+      - eapply (PhFwd k id st' h' arr' th code' j r it0 q x q'); try eassumption; [lia| |rewrite (qout_same k id _ _ Hw); exact Hq].
+        eapply held_keep; [exact Hh|apply lookup_of_in'; exact Hin'].
+      - exfalso. subst code. destruct (Hq2 _ _ _ _ Hl Elkth) as [Hb2 _]. congruence. }
+    destruct (lstep_or_not l) as [(th2&room&Hl)|Hn]; [|apply Hstay; intros th2 room i2 rest Hl; exfalso; eapply Hn; exact Hl].
+    destruct (lstep_inv th2 room Hl) as (i2&rest&st1&pushed&Elk&E&Hst').
+    pose proof (lookup_in tid_eqb tid_eqb_ok _ _ _ Elk) as Hin2.
+    destruct (blocked k id i2) eqn:Hb2.
+    2:{ apply Hstay. intros th3 room3 i3 rest3 Hl3 Elk3. rewrite Hl in Hl3. inversion Hl3. subst th3 room3. rewrite Elk in Elk3. inversion Elk3. subst i3 rest3.
+        split; [exact Hb2|]. intro Heq. subst th2. rewrite Elkth in Elk. inversion Elk. subst code.
+        destruct Hj as [Hj|Hj]; [subst i2; congruence|exact Hj]. }
+    (* the committed instruction itself is executed *)
+    destruct (unique_blocked k id st _ _ _ _ _ _ (inv_threads_nd _ HI) Hnb1 Hin2 (or_introl eq_refl) Hb2 Hin Hj Hbj) as [Heq Hi2]. subst th2 i2.
+    assert (Hitems : items st' = items st).
+    { rewrite Hst'. cbn [set_thread set_threads items]. destruct Hform as [(rk&g&->)|(rk&->)]; cbn [exec] in E.
+      - destruct g as [[it s]|]; [|inversion E; reflexivity]. destruct (it_tomb it || (fin_of (r_f r) && negb s)); inversion E; reflexivity.
+      - destruct room; inversion E; reflexivity. }
+    assert (Hk0 : klookup K0 (items st') = Some it0) by (rewrite Hitems; exact Hl0).
+    assert (Hself : forall code', lookup tid_eqb th (threads st') = Some code' -> In (th, it_call it0) h').
+    { intros code' Hl'. eapply held_keep; eassumption. }
+    assert (Hlk' : pushed ++ rest <> [] -> lookup tid_eqb th (threads st') = Some (pushed ++ rest)).
+    { intro Hne. rewrite Hst', lookup_set_thread_self. destruct (pushed ++ rest); [contradiction|reflexivity]. }
+    destruct Hform as [(rk&g&Hjeq)|(rk&Hjeq)]; subst j.
+    - (* IRcvChk -> IRcvEnq *)
+      pose proof (HrkC _ _ eq_refl) as Hrk0. subst rk.
+      cbn in Hbj. destruct g as [[it s]|]; [|discriminate]. apply andb_true_iff in Hbj. destruct Hbj as [Hbj Hb4].
+      apply andb_true_iff in Hbj. destruct Hbj as [Hb1 Hb3]. apply negb_true_iff in Hb3.
+      assert (Hchk : it_tomb it || (fin_of (r_f r) && negb s) = false).
+      { rewrite Hb3. cbn. destruct (fin_of (r_f r)); [|reflexivity]. cbn in Hb4. rewrite Hb4. reflexivity. }
+      pose proof E as E0. cbn [exec] in E0. rewrite Hchk in E0.
+      match type of E0 with (_, ?cbs ++ [IRcvEnq r K0]) = _ => set (CBS := cbs) in * end.
+      inversion E0. subst st1. clear E0.
+      assert (Hbe : blocked k id (IRcvEnq r K0) = true) by (cbn; exact Hb1).
+      assert (Hin' : In (th, pushed ++ rest) (threads st')).
+      { rewrite Hst'. apply in_set_thread_self. rewrite <- H1. destruct CBS; discriminate. }
+      assert (Hje : In (IRcvEnq r K0) (pushed ++ rest)) by (rewrite <- H1; apply in_or_app; left; apply in_or_app; right; left; reflexivity).
+      assert (Hnb' : nb k id st' = 1).
+      { rewrite Hst', (nb_LStep cf k id _ _ _ _ _ _ _ HI Elk E). pose proof (pushed_bl_count k id _ _ _ _ _ _ E).
+        assert (In (IRcvEnq r K0) pushed) by (rewrite <- H1; apply in_or_app; right; left; reflexivity).
+        pose proof (csum_in_le k id _ _ H0). unfold bl in *. cbn [blocked] in *. rewrite Hb1 in *. cbn [b2z] in *.
+        rewrite Hb3 in *. cbn [negb andb] in *. rewrite Hb4 in *. cbn [b2z] in *. lia. }
+      assert (Hw : wout k id st' = wout k id st).
+      { destruct (step_wout cf k id _ _ _ Hs) as [Hw|(th3&room3&i3&rest3&Hl3&Elk3&_&[(ec3&Hi3&_)|(r3&rk3&x3&Hi3&_)])]; [exact Hw| |];
+          rewrite Hl in Hl3; inversion Hl3; subst th3; rewrite Elk in Elk3; inversion Elk3; subst i3; discriminate. }
+      eapply (PhFwd k id st' h' arr' th (pushed ++ rest) (IRcvEnq r K0) r it0 q x q'); try eassumption.
+      + cbn [committed]. rewrite Hbe. reflexivity.
+      + apply (Hself (pushed ++ rest)). apply lookup_of_in'. exact Hin'.
+      + rewrite (qout_same k id _ _ Hw). exact Hq.
+    - (* IRcvEnq: the frame is handed to the caller's connection, or the buffer is full *)
+      pose proof (HrkE _ eq_refl) as Hrk0. subst rk.
+      assert (Hmore : (0 <? r_more r) = false).
+      { destruct (0 <? r_more r) eqn:Em; [|reflexivity]. apply Z.ltb_lt in Em.
+        pose proof (w_code _ HW _ _ _ Hin Hj) as Hw. cbn in Hw. destruct Hw as (_&_&C). rewrite (C Em) in Hft. discriminate. }
+      pose proof (kind_fin _ _ Hk) as Hfin.
+      assert (Hqne : q <> WEnd) by (intro; subst q; rewrite wire_step_end in Hst; discriminate).
+      destruct (shape_head _ _ (HS _ _ Hin2)) as (_&_&Hqrest). specialize (Hqrest eq_refl). rewrite forallb_forall in Hqrest.
+      destruct room.
+      + pose proof E as E0. cbn [exec] in E0. inversion E0. subst st1. clear E0.
+        assert (Hw : wout k id st' = wout k id st ++ [x]).
+        { destruct (step_wout cf k id _ _ _ Hs) as [Hw|(th3&room3&i3&rest3&Hl3&Elk3&_&[(ec3&Hi3&_)|(r3&rk3&x3&Hi3&_&Hk3&Hw)])].
+          - exfalso. unfold wout in Hw. rewrite Hst' in Hw. cbn [set_thread set_threads sent set_sent] in Hw. rewrite wire_of_cons in Hw.
+            cbn in Hbj. rewrite !andb_true_iff in Hbj. destruct Hbj as [[E1 E2] _]. rewrite E1, E2, Hk in Hw. cbn in Hw.
+            apply (f_equal (@length _)) in Hw. rewrite app_length in Hw. cbn in Hw. lia.
+          - rewrite Hl in Hl3. inversion Hl3. subst th3. rewrite Elk in Elk3. inversion Elk3. subst i3. discriminate.
+          - rewrite Hl in Hl3. inversion Hl3. subst th3. rewrite Elk in Elk3. inversion Elk3. subst i3. congruence. }
+        assert (Hq' : qout k id st' = Some q') by (rewrite (qout_snoc k id _ _ _ _ Hq Hw); exact Hst).
+        assert (Hnb' : nb k id st' = 0).
+        { rewrite Hst', (nb_LStep cf k id _ _ _ _ _ _ _ HI Elk E). unfold bl at 1. rewrite Hbj. rewrite <- H1, csum_app, csum_bl_after_sent.
+          destruct (fin_of (r_f r)); cbn; lia. }
+        unfold after_sent in H1. rewrite Hmore in H1. rewrite app_nil_r in H1.
+        destruct (fin_of (r_f r)) eqn:Ef.
+        * (* the terminal frame *)
+          assert (q' = WEnd) by (apply (wire_step_terminal _ _ _ Hst); congruence). subst q'.
+          cbn [app] in H1.
+          assert (Hlk'' : lookup tid_eqb th (threads st') = Some (IDelete K0 :: IDelete (r_own r) :: rest)).
+          { rewrite Hlk' by (rewrite <- H1; discriminate). rewrite <- H1. reflexivity. }
+          eapply (PhWindow k id st' h' arr' it0 th (IDelete (r_own r) :: rest)); try eassumption. apply (Hself _ Hlk'').
+        * (* a non-final frame: everything the destination sent so far has been forwarded *)
+          assert (Hq'ne : q' <> WEnd).
+          { intro Heq. subst q'. pose proof (proj2 (wire_step_terminal _ _ _ Hst) eq_refl). congruence. }
+          cbn [app] in H1. subst pushed. cbn [app] in Hst'.
+          eapply (PhLive k id st' h' arr' it0 q'); try eassumption. right. right. split.
+          -- intros th0 code0 j0 y Hin0 Hj0 Hp. exfalso.
+             pose proof (pre_thr _ _ _ _ _ Hp (f_thr _ _ (a_finv _ _ HA') _ _ _ Hin0 Hj0)) as Hth0. rewrite <- Hthd in Hth0. subst th0.
+             rewrite Hst' in Hin0. apply set_thread_in in Hin0. destruct Hin0 as [[_ ->]|[Hne _]]; [|apply Hne; reflexivity].
+             rewrite (quiet_pre _ _ _ (Hqrest _ Hj0)) in Hp. discriminate.
+          -- intros _. exact Hqa'.
+      + (* full buffer: the reader goes on to fail the item *)
+        pose proof E as E0. cbn [exec] in E0. inversion E0. subst st1. clear E0.
+        assert (Hw : wout k id st' = wout k id st).
+        { destruct (step_wout cf k id _ _ _ Hs) as [Hw|(th3&room3&i3&rest3&Hl3&Elk3&_&[(ec3&Hi3&_)|(r3&rk3&x3&Hi3&Hroom&_)])]; [exact Hw| |].
+          - rewrite Hl in Hl3. inversion Hl3. subst th3. rewrite Elk in Elk3. inversion Elk3. subst i3. discriminate.
+          - rewrite Hl in Hl3. inversion Hl3. subst room3. discriminate. }
+        assert (Hnb' : nb k id st' = 0).
+        { rewrite Hst', (nb_LStep cf k id _ _ _ _ _ _ _ HI Elk E). unfold bl at 1. rewrite Hbj. rewrite <- H1. cbn. lia. }
+        assert (Hlk'' : lookup tid_eqb th (threads st') = Some (pushed ++ rest)) by (apply Hlk'; rewrite <- H1; discriminate).
+        eapply (PhLive k id st' h' arr' it0 q); try eassumption; [rewrite (qout_same k id _ _ Hw); exact Hq|].
+        right. left. rewrite <- H1 in Hlk''. cbn [app after_unsent] in Hlk''.
+        eexists th, _, _. split; [exact Hlk''|]. split; [eapply Hself; exact Hlk''|]. left. eexists. reflexivity.
+  Qed.
+
   (* --- unseen *)
   Lemma trans_unseen : ~ In (k, id) (seen st) -> phase k id st' h' arr'.
   Proof.
